@@ -679,6 +679,15 @@ def _is_boolish(e):
     return False
 
 
+def _is_attr_path(e):
+    """obj.a.b: a plain attribute read (`pending = self._flag; if pending:` is `if self._flag:`)"""
+    n = 0
+    while isinstance(e, ast.Attribute):
+        e = e.value
+        n += 1
+    return n > 0 and isinstance(e, ast.Name)
+
+
 def _propagate_bools(fdef):
     """N21: a local bound once to a boolean expression (`in_range = type(i) == int and 0 <= i < N`) and then only tested stands for that
     expression: its uses are replaced by the expression and the assignment is dropped.  Safe when nothing the expression reads can change
@@ -700,7 +709,7 @@ def _propagate_bools(fdef):
             st = stmts[i]
             for owner, f in _child_lists(st):
                 try_list(getattr(owner, f))
-            if isinstance(st, ast.Assign) and len(st.targets) == 1 and isinstance(st.targets[0], ast.Name) and _is_boolish(st.value):
+            if isinstance(st, ast.Assign) and len(st.targets) == 1 and isinstance(st.targets[0], ast.Name) and (_is_boolish(st.value) or _is_attr_path(st.value)):
                 b = st.targets[0].id
                 uses = loads.get(b, [])
                 rest = stmts[i + 1:]
